@@ -248,6 +248,27 @@ def run(ck, tier):
     from ..share import import_findings as _imp3
     ck.rule('R19', 'the RTU frame length oracle sizes every reply correctly (byte counts up to 250 are unsigned) (shared with C03 R3)')
     _imp3(ck, 'C03', 'R19', ('R3',), 'a well-formed reply of a conformant server fails the frame check and the caller gets an error object', detail_prefixes=('rtuFrameSize-shape', 'size-from-buffered-length', 'custom-size-override', 'fifo-size', 'mei-size-shape', 'base-size-shape'))
+    ck.rule('R24', 'the synchronous client files replies in a table KEYED by transaction id (DictTransactionManager) on every constructor path: execute() stores the reply under the request id and fetches it by that id')
+    bc = cx.idx.cls('pymodbus.client.sync.BaseModbusClient')
+    bi = cx.method(bc, '__init__')
+    ck.saw('functions', bi.qn)
+    n24 = 0
+    from ..common import annotate as _ann
+    for p in cx.enum(bi, bc, max_depth=1):
+        if p.exit and p.exit[0] == 'exc':
+            continue
+        _ann(p, heap=False)
+        for e in p.ev:
+            if e.kind == 'assign' and U(e.a) == 'self.transaction':
+                n24 += 1
+                v = getattr(e, '_sub', None) or e.node.value
+                names = {callee_name(c_) for c_ in ast.walk(v) if isinstance(c_, ast.Call)}
+                ck.ob('R24', bi.qn, 'self.transaction is a DictTransactionManager', 'DictTransactionManager' in names and 'FifoTransactionManager' not in names,
+                      detail='sync-client-manager-not-keyed', loc=cx.floc(bi, e.node),
+                      message='BaseModbusClient.__init__ can build `%s` as its transaction table: a FIFO table ignores the id under which execute() files and fetches the reply, so '
+                              'when one read decodes two frames (a late reply in front of the real one) the caller gets the older frame, and every later call the reply of the call before'
+                              % U(v)[:80])
+    ck.floor('R24', n24, 1, 'constructor paths that bind self.transaction')
     ck.rule('R23', 'the reply picked up for the request is tested for truth before it is handed back (`if not response`): no response / exception class can be falsy (shared with C01 R14)')
     _imp3(ck, 'C01', 'R23', ('R14',), 'a reply that did arrive (an exception reply, an empty read result) is discarded by the transaction manager and the caller is handed a generic error instead of the reply to its request',
           detail_prefixes=('message-class-can-be-falsy',))
